@@ -83,6 +83,18 @@ roundtrip!(c25_pdata_1pdv_p8, 18, 0x04, 14, 8, {
     let d: [u8; 2] = kani::any();
     Pdu::PData { data: vec![PDataValue { presentation_context_id: kani::any(), value_type: if kani::any() { PDataValueType::Command } else { PDataValueType::Data }, is_last: kani::any(), data: d.to_vec() }] }
 });
+// one PDV with an EMPTY payload (exactly one PDV header remains when it is parsed): 6 + 4 + 2 = 12 bytes
+roundtrip!(c25_pdata_empty_pdv_p11, 16, 0x04, 12, 11, {
+    Pdu::PData { data: vec![PDataValue { presentation_context_id: kani::any(), value_type: if kani::any() { PDataValueType::Command } else { PDataValueType::Data }, is_last: kani::any(), data: Vec::new() }] }
+});
+// two PDVs, the second one empty: 6 + (4 + 2 + 1) + (4 + 2) = 19 bytes
+roundtrip!(c25_pdata_2pdv_last_empty_p12, 24, 0x04, 19, 12, {
+    let d: [u8; 1] = kani::any();
+    Pdu::PData { data: vec![
+        PDataValue { presentation_context_id: kani::any(), value_type: PDataValueType::Command, is_last: kani::any(), data: d.to_vec() },
+        PDataValue { presentation_context_id: kani::any(), value_type: PDataValueType::Data, is_last: kani::any(), data: Vec::new() },
+    ] }
+});
 // unknown PDU type with 3 payload bytes
 roundtrip!(c25_unknown_p8, 14, w_type(), 9, 8, Pdu::Unknown { pdu_type: w_type(), data: vec![1, 2, 3] });
 fn w_type() -> u8 { 0x42 }
